@@ -18,6 +18,9 @@ scalar type `K` with a denotation of literals satisfying the four `LitLaws`.
 Hypotheses, all decidable and checked on every generated case by the driver:
 * `finiteLits e` — every literal component is finite and is not `-0.0`.  For `-0.0` the full statement is
   FALSE of the code (`C03_negzero_counterexample`, known finding `C03/negative-zero-literal`);
+* `plainNames e` — no memory region is named like a reserved word of the lexer (`ADD`, `DAGGER`, `mut`, `BIT`
+  …): such a name is written as it is and lexes as a `Command` / `Modifier` / keyword token, so the text
+  does not parse (`C03_reserved_name_counterexample`, known finding `C03/reserved-word-region-name`);
 * `numTokOk F e` — the NumTok hypothesis: the decimal text of each literal component's magnitude lexes to a
   token denoting the same bits (`lexical`'s formatting and parsing are not modelled; validated on every
   numeric leaf through the real printer + real lexer).
@@ -37,10 +40,14 @@ theorem C03 {K : Type} [Scalar K] (den : CBits → K) (L : LitLaws K den) (F : N
     (hf : finiteLits e = true) (hn : numTokOk F e = true) : RoundTrips den (printTop F e) e :=
   ⟨norm e, parseExpressionStr_printTop F e hf hn, fun ρ μ => eval_norm L ρ μ e hf⟩
 
-/-- C03 for the concrete printer `printExprTokens` (= `lex_tokens ∘ to_quil`, compared on every case) -/
+/-- C03 for the concrete printer `printExprTokens` (= `lex_tokens ∘ to_quil`, compared on every case): the
+idealised `printTop stdFmt` with every written name classified the way the lexer does; needs `plainNames`
+(no memory region named like a reserved word of the lexer) — see `C03_reserved_name_counterexample`. -/
 theorem C03_std {K : Type} [Scalar K] (den : CBits → K) (L : LitLaws K den) (e : PExpr)
-    (hf : finiteLits e = true) (hn : numTokOk stdFmt e = true) : RoundTrips den (printExprTokens e) e :=
-  C03 den L stdFmt e hf hn
+    (hf : finiteLits e = true) (hm : plainNames e = true) (hn : numTokOk stdFmt e = true) :
+    RoundTrips den (printExprTokens e) e := by
+  rw [printExprTokens_eq e hm]
+  exact C03 den L stdFmt e hf hn
 
 /-- The strengthened, reusable form (C02 / C04): the printed tokens followed by ANY `rest` that does not
 begin with an operator, the identifier `i` or `[` are consumed exactly, at every depth budget larger than
@@ -158,11 +165,12 @@ def witness : PExpr :=
 
 /-- the hypotheses of `C03_std` are satisfiable on a non-trivial tree, and the conclusion is not trivial:
 the re-parsed tree differs from the original -/
-example : finiteLits witness = true ∧ numTokOk stdFmt witness = true ∧ norm witness ≠ witness := by
+example : finiteLits witness = true ∧ plainNames witness = true ∧ numTokOk stdFmt witness = true ∧
+    norm witness ≠ witness := by
   decide
 
 example : RoundTrips denGI (printExprTokens witness) witness :=
-  C03_std denGI litLaws_GI witness (by decide) (by decide)
+  C03_std denGI litLaws_GI witness (by decide) (by decide) (by decide)
 
 /-- what the witness prints to: `-(-1.5)^((1.5-2.0i)*sqrt(%x - pi))` -/
 example : printExprTokens witness =
@@ -216,5 +224,18 @@ theorem C03_negzero_counterexample {K : Type} [Scalar K] (den : CBits → K)
   simp only [evalP, Expr.mapNum, eval, calcFn] at b
   injection b with b
   exact hsep b
+
+/-! ## the full statement is false for a memory region named like a reserved word
+
+`MemoryReference { name, index }` has public fields and no validation; `name[index]` is written verbatim and
+the lexer classifies `ADD`, `DAGGER`, `BIT`, `mut`, `PAULI-SUM` … as `Command` / `Modifier` / `DataType` /
+keyword tokens, which `parse_expression` rejects. -/
+
+theorem C03_reserved_name_counterexample :
+    finiteLits (.address ⟨"ADD", 0⟩) = true ∧ plainNames (.address ⟨"ADD", 0⟩) = false ∧
+    printExprTokens (.address ⟨"ADD", 0⟩) = [.command .add, .lBracket, .integer 0, .rBracket] ∧
+    (parseExpressionStr (printExprTokens (.address ⟨"ADD", 0⟩))).isOk = false ∧
+    (parseExpressionStr (printExprTokens (.bin (.address ⟨"DAGGER", 1⟩) .star (.address ⟨"mut", 0⟩)))).isOk = false := by
+  decide
 
 end QV.C03
